@@ -94,7 +94,8 @@ class Models(object):
 
     def native_call(self, fn, args, kwargs):
         if has_sym(args, 2) or has_sym(kwargs, 2):
-            ok = fn in STRUCTURAL or fn in self.interp.native_ok
+            ok = fn in STRUCTURAL or fn in self.interp.native_ok or getattr(getattr(fn, "__self__", None), "_pyvc_model", False) \
+                or getattr(fn, "_pyvc_model", False)
             if not ok and isinstance(fn, (types.BuiltinMethodType, types.MethodWrapperType)):
                 slf = getattr(fn, "__self__", None)
                 for base in type(slf).__mro__:
@@ -463,6 +464,24 @@ class Models(object):
             allowed = _allowed_fn(a)
             if allowed is None:
                 return False
+            if not any(allowed(ch, w) for ch in sep for w in ("first", "last", "any")):
+                # no character of sep can occur in this hole at all; an empty hole joining two
+                # literals is handled below for Val, impossible for the other atoms (non-empty
+                # or separated renderings are checked by the caller's grammar)
+                if isinstance(a, Val) and not a.nonempty:
+                    left = atoms[i - 1].s if i > 0 and isinstance(atoms[i - 1], Lit) else ""
+                    right = atoms[i + 1].s if i + 1 < len(atoms) and isinstance(atoms[i + 1], Lit) else ""
+                    L = len(sep)
+                    if L > 1 and sep in (left[-(L - 1):] + right[:L - 1]):
+                        return False
+                if isinstance(a, (Rep, SetLit)):
+                    # may render as the empty string: adjacent literals could join
+                    left = atoms[i - 1].s if i > 0 and isinstance(atoms[i - 1], Lit) else ""
+                    right = atoms[i + 1].s if i + 1 < len(atoms) and isinstance(atoms[i + 1], Lit) else ""
+                    L = len(sep)
+                    if L > 1 and sep in (left[-(L - 1):] + right[:L - 1]):
+                        return False
+                continue
             # sep inside the hole or overlapping its borders: every alignment needs at least one
             # character of sep inside the hole; excluded if every char of sep is disallowed there
             # position-independent approximation: if ANY character of sep may appear in the hole,
@@ -671,7 +690,7 @@ class Models(object):
             # join over an abstract sequence: only constant patterns / int renderings are supported
             e = items.elem
             if items.kind == "const":
-                return SStr([Rep(e, sep, items)])
+                return SStr([Rep(items.elem, sep, items)])
             if items.kind == "setstr":
                 return SStr([SetLit(e, sep)])
             raise Undecided("join over abstract sequence of kind %s" % items.kind)
@@ -800,9 +819,47 @@ class Models(object):
         raise Undecided("iteration over %r" % (v,))
 
     def comp_sym(self, it, g, gens, i, env, emit, node):
+        """[<constant> for _ in <abstract sequence>]  ->  abstract sequence of that constant"""
+        if isinstance(it, SSeq) and len(gens) == 1 and not g.ifs and isinstance(node, (ast.ListComp, ast.GeneratorExp)) \
+                and isinstance(node.elt, ast.Constant) and isinstance(node.elt.value, str):
+            self._comp_abstract = SSeq(it.length, node.elt.value, name="const(%s)" % it.name, kind="const")
+            return True
+        # [x for x in <abstract int collection> if cond(x)]  ->  filtered abstract collection
+        base = _as_sset(it)
+        if base is not None and len(gens) == 1 and isinstance(node, (ast.ListComp, ast.GeneratorExp)) \
+                and isinstance(g.target, ast.Name) and isinstance(node.elt, ast.Name) and node.elt.id == g.target.id:
+            from .interp import Env
+            b0 = self.ctx.fresh_int("elt")
+            inner = Env({g.target.id}, env, env.globals, func=env.func)
+            inner.vars[g.target.id] = SInt(b0)
+            conds = []
+            for c in g.ifs:
+                v = self.interp.eval(c, inner)
+                if isinstance(v, SBool):
+                    conds.append(v.e)
+                elif isinstance(v, bool):
+                    conds.append(z3.BoolVal(v))
+                else:
+                    raise Undecided("filter condition of a comprehension over an abstract set is not boolean")
+            cond = z3.And(*conds) if conds else z3.BoolVal(True)
+            card = self.ctx.fresh_int("card")
+            self.ctx.assume(z3.And(card >= 0, card <= base.card))
+            member = lambda b, base=base, cond=cond, b0=b0: z3.And(base.member(b), z3.substitute(cond, (b0, b)))
+            wit = None
+            if base.witness is not None:
+                from .harness import ev
+                wit = lambda model, base=base, cond=cond, b0=b0: {x for x in base.witness(model) if ev(model, z3.substitute(cond, (b0, z3.IntVal(x))))}
+            fs = SSet(member, card, name="filter(%s)" % base.name, witness=wit)
+            self._comp_abstract = _as_sseq(fs)
+            return True
         return NotImplemented
 
+    _comp_abstract = None
+
     def comp_result(self, out, kind):
+        if self._comp_abstract is not None:
+            r, self._comp_abstract = self._comp_abstract, None
+            return r
         return out
 
     def getattr_sym(self, obj, name):
@@ -820,7 +877,9 @@ class Models(object):
         if isinstance(slf, list) and name in ("extend", "__iadd__"):
             other = args[0]
             if isinstance(other, SSeq):
-                raise Undecided("extend with abstract sequence")
+                from .sqlmodel import Splice
+                slf.append(Splice(other))        # a run of len(other) elements (only meaningful as SQL arguments)
+                return slf if name == "__iadd__" else None
             slf.extend(list(self.interp.iterate(other)))
             return slf if name == "__iadd__" else None
         if isinstance(slf, dict) and name in ("get", "setdefault", "pop", "update") and not any(isinstance(a, Sym) for a in args[:1]):
@@ -968,8 +1027,9 @@ class Models(object):
         return False
 
     def b_map(self, fn, *its):
-        if len(its) == 1 and isinstance(its[0], SSet) and fn is builtins.str:
-            return SSeq(its[0].card, its[0], name="map(str,%s)" % its[0].name, kind="setstr")
+        if len(its) == 1 and fn is builtins.str and _as_sset(its[0]) is not None:
+            ss = _as_sset(its[0])
+            return SSeq(ss.card, ss, name="map(str,%s)" % ss.name, kind="setstr")
         if len(its) == 1 and isinstance(its[0], SSeq):
             raise Undecided("map over abstract sequence")
         lists = [list(self.interp.iterate(i)) for i in its]
@@ -1016,6 +1076,9 @@ class Models(object):
         return hasattr(obj, name)
 
     def b_sorted(self, it, key=None, reverse=False):
+        if _as_sset(it) is not None and key is None:
+            self.used("sorted-of-abstract-set (order abstracted; only membership is used afterwards)")
+            return _as_sseq(_as_sset(it))
         items = list(self.interp.iterate(it))
         if key is not None:
             keys = [self.interp.call(key, [x], {}) for x in items]
@@ -1041,10 +1104,7 @@ class Models(object):
 
     def b_list(self, it=()):
         if isinstance(it, SSet):
-            idx = self.ctx.fresh_int("k")
-            s = it
-            f = z3.Function("elem!%s!%d" % (s.name, id(s) % 100000), z3.IntSort(), z3.IntSort())
-            return SSeq(s.card, lambda i: SInt(f(i)), name="list(%s)" % s.name, member=s.member, kind="setlist")
+            return _as_sseq(it)
         if isinstance(it, SSeq):
             return it
         return list(self.interp.iterate(it))
@@ -1101,6 +1161,30 @@ _STR_METHODS = {"format", "join", "startswith", "endswith", "split", "count", "r
                 "replace", "lower", "upper", "encode", "splitlines", "find", "index"}
 
 _OPSYM = {ast.Lt: "<", ast.LtE: "<=", ast.Gt: ">", ast.GtE: ">=", ast.Eq: "==", ast.NotEq: "!="}
+
+
+def _as_sset(x):
+    """view an abstract int collection (SSet, or SSeq derived from a set) as an SSet"""
+    if isinstance(x, SSet):
+        return x
+    if isinstance(x, SSeq) and x.kind == "setlist" and x.member is not None:
+        return SSet(x.member, x.length, name=x.name, witness=getattr(x.elem, "witness", None) if not callable(x.elem) else getattr(x, "_witness", None))
+    return None
+
+
+def _as_sseq(s):
+    f = z3.Function("elem!%d" % (id(s) % 1000003), z3.IntSort(), z3.IntSort())
+    q = SSeq(s.card, lambda i: SInt(f(i)), name="list(%s)" % s.name, member=s.member, kind="setlist")
+    _WIT[id(q)] = (q, s.witness)
+    return q
+
+
+_WIT = {}
+
+
+def seq_witness(q):
+    e = _WIT.get(id(q))
+    return e[1] if e and e[0] is q else None
 
 
 def _int(x):
@@ -1163,9 +1247,12 @@ def _allowed_fn(a):
             return True
         return f
     if isinstance(a, IntLit):
-        def f(ch, where):
+        def f(ch, where, a=a):
             if ch == "-":
-                return where in ("first",)
+                if where != "first":
+                    return False
+                c = Ctx.current
+                return c is None or c.may(a.e < 0)
             return ch.isdigit() and ch.isascii()
         return f
     if isinstance(a, SetLit):
